@@ -122,3 +122,24 @@ def run_mixed(item):
         return 'ZeroDivisionError'
     except Exception as e:
         return 'EXC ' + type(e).__name__
+
+
+def run_cmpstats(item):
+    """(p, g, display, [(op, a, b)]) -> 'c1,c2,.. max=M min=m' : a sequence of Guarded comparisons and the class statistics after it.
+    Each comparison uses one Python operator (one __cmp__ call); its boolean is translated back to what it says about cmp."""
+    p, g, display, seq = item
+    try:
+        cls = init_class('guarded', p, g, display)
+        outs = []
+        for op, a, b in seq:
+            x, y = cls(int(a), True), cls(int(b), True)
+            if op == 'lt': r = x < y
+            elif op == 'le': r = x <= y
+            elif op == 'eq': r = x == y
+            elif op == 'ne': r = x != y
+            elif op == 'gt': r = x > y
+            else: r = x >= y
+            outs.append('1' if r else '0')
+        return '%s max=%d min=%d' % (','.join(outs), cls.maxDiff, cls.minDiff)
+    except Exception as e:
+        return 'EXC ' + type(e).__name__
